@@ -478,6 +478,22 @@ TE_CHUNKED = TE_LITERALS[:4]
 TE_PLAIN = TE_LITERALS[4:]
 
 
+def cands(pools, limit=40, seed=1):
+    """candidate assignments {symbol: value} (scenario option `candidates`): concrete inputs on which the uninterpreted
+    library functions are evaluated by their native oracles, so that counter-models and CPython conformance samples are
+    real inputs.  pools: {symbol: [values]}; the product is sampled deterministically."""
+    import itertools
+    import random
+    names = list(pools)
+    prod = list(itertools.product(*[pools[n] for n in names]))
+    random.Random(seed).shuffle(prod)
+    return [dict(zip(names, p)) for p in prod[:limit]]
+
+
+NAME_POOL = [b"Transfer-Encoding", b"content-length", b"X-A", b"bad name"]
+VALUE_POOL = [b"chunked", b"gzip", b"3", b"GZIP ,\tChunked", b"x", b"03"]
+
+
 def _regex_opts():
     from pyvc.libx_http1 import te_preimage
     return dict(exact_regex=True, resub_literals=TE_LITERALS,
@@ -509,10 +525,11 @@ CL_RFC_B, CL_RFC_S = rb"[0-9]+", r"[0-9]+"
 CL_STRICT_B, CL_STRICT_S = rb"(?:0|[1-9][0-9]*)", r"(?:0|[1-9][0-9]*)"
 
 
-@scenario("parse_content_length", functions=[V + "parse_content_length"], exact_regex=True)
+@scenario("parse_content_length", functions=[V + "parse_content_length"], exact_regex=True,
+          candidates=cands({"value_b": [b"3", b"0", b"03", b"", b"3\n", b"x", b"12"], "value_s": ["3", "0", "03", "", "3\n", "x", "12"]}))
 def s_parse_cl(vc):
     as_str = vc.case("type", ["bytes", "str"]) == "str"
-    v = vc.sym_str("value") if as_str else vc.sym_bytes("value")
+    v = vc.sym_str("value_s") if as_str else vc.sym_bytes("value_b")
     out = vc.call(V + "parse_content_length", v)
     rfc = in_re(vc, v, CL_RFC_S if as_str else CL_RFC_B)
     strict = in_re(vc, v, CL_STRICT_S if as_str else CL_STRICT_B)
@@ -540,10 +557,14 @@ def te_spec_pattern(lit, as_str):
     return out if as_str else out.encode()
 
 
-@scenario("parse_transfer_encoding", functions=[V + "parse_transfer_encoding"], **_regex_opts())
+TE_VALUE_POOL = ["chunked", "Chunked", "gzip, chunked", "GZIP ,\tChunked", "identity", "gzip", "xchunked", "chunked, chunked", "", "chun\u212aed"]
+
+
+@scenario("parse_transfer_encoding", functions=[V + "parse_transfer_encoding"],
+          candidates=cands({"value_b": [x.encode("utf8") for x in TE_VALUE_POOL], "value_s": TE_VALUE_POOL}), **_regex_opts())
 def s_parse_te(vc):
     as_str = vc.case("type", ["bytes", "str"]) == "str"
-    v = vc.sym_str("value") if as_str else vc.sym_bytes("value")
+    v = vc.sym_str("value_s") if as_str else vc.sym_bytes("value_b")
     out = vc.call(V + "parse_transfer_encoding", v)
     vc.ensure("raises_only_value_error", out.ok or issubclass(out.raised_type(), ValueError))
     matches = [in_re(vc, v, te_spec_pattern(L, as_str)) for L in TE_LITERALS]
@@ -686,7 +707,9 @@ def name_check(vc, name):
     return SBool(lib.uf("re_match", z3.StringSort(), z3.StringSort(), z3.BoolSort())(key, lift(name).t))
 
 
-@scenario("validate_headers", functions=[V + "validate_headers"])
+@scenario("validate_headers", functions=[V + "validate_headers"],
+          candidates=cands({"n0": NAME_POOL, "v0": VALUE_POOL, "n1": NAME_POOL, "v1": VALUE_POOL[:3], "n2": NAME_POOL[:3], "v2": VALUE_POOL[:3],
+                            "version": [b"HTTP/1.1", b"HTTP/1.0"], "status": [200, 204]}, limit=60))
 def s_validate(vc):
     kind = vc.case("kind", ["request", "response"])
     n = vc.case("n", list(range(NMAX + 1)))
@@ -731,7 +754,8 @@ def s_validate(vc):
         vc.ensure("refused_only_for_a_stated_reason", Not(good))
 
 
-@scenario("validate_headers.name_pattern", functions=[V + "validate_headers"], exact_regex=True)
+@scenario("validate_headers.name_pattern", functions=[V + "validate_headers"], exact_regex=True,
+          candidates=cands({"name": [b"X-A", b"X", b"X\n", b"bad name", b"", b"\xc3\xa9"]}))
 def s_validate_name(vc):
     """what the field-name test accepts: exactly the RFC 9110 tokens (known defect: plus token + newline)"""
     kind = vc.case("kind", ["request", "response"])
@@ -791,7 +815,9 @@ def upper_(vc, s):
 EBS = RD + "expected_http_body_size"
 
 
-@scenario("expected_http_body_size", functions=[EBS])
+@scenario("expected_http_body_size", functions=[EBS],
+          candidates=cands({"n0": NAME_POOL[:3], "v0": VALUE_POOL[:4], "n1": NAME_POOL[:3], "v1": VALUE_POOL[:3], "http11": [True, False],
+                            "method": [b"GET", b"HEAD", b"head", b"CONNECT"], "status": [200, 204, 304, 100]}, limit=60))
 def s_ebs(vc):
     kind = vc.case("kind", ["request", "response"])
     n = vc.case("n", list(range(int(_os.environ.get("C01_EBS_N", "2" if _os.environ.get("PYVC_TIER") == "thorough" else "1")) + 1)))
@@ -962,7 +988,7 @@ def te_value_of_class(vc, framing):
     return v
 
 
-@scenario("te_classes.substring_lemma", functions=[])
+@scenario("te_classes.substring_lemma", functions=[], candidates=cands({"v": [x.encode("utf8") for x in TE_VALUE_POOL]}))
 def s_te_lemma(vc):
     """pattern facts used by the send / mark_done contracts: for every value v in a named class,
     lower(v) contains 'chunked' iff the class is 'final coding chunked'; v is non-empty ASCII.
@@ -993,8 +1019,13 @@ def is_ghost(c, tag):
     return isinstance(c, tuple) and len(c) > 0 and c[0] == tag
 
 
+SEND_CANDS = cands({"te": [b"chunked", b"gzip, chunked", b"gzip", b"identity"], "xn": [b"X-A"], "xv": [b"y"], "clv": [b"3", b"0"], "method": [b"GET", b"HEAD", b"head", b"POST"],
+                    "scheme": [b"http"], "authority": [b"example.com", b""], "path": [b"/p"], "data": [b"", b"abc"], "status": [200, 304, 204], "reason": [b"OK"],
+                    "end_stream": [False]}, limit=80)
+
+
 @scenario("http1client.send", functions=[H1C + ".send", "mitmproxy.net.http.http1.assemble:assemble_request_head",
-                                         "mitmproxy.net.http.http1.assemble:_assemble_request_line"])
+                                         "mitmproxy.net.http.http1.assemble:_assemble_request_line"], candidates=SEND_CANDS)
 def s_client_send(vc):
     from props.httpstream import mk_request, mk_headers
     framing = vc.case("framing", ["chunked", "cl", "none"])   # what a validated request can carry (TE without final chunked is refused)
@@ -1042,7 +1073,7 @@ def s_client_send(vc):
         vc.ensure("headers.request_recorded", cl.request is req and vc.eq(cl.stream_id, 1))
     elif evk == "data":
         if vc.branch(len_(data) == 0):
-            vc.ensure_kf("data.empty_sends_nothing", len(tr) == 0, "KF-C01-7", chunked)
+            vc.ensure("data.empty_sends_nothing", len(tr) == 0)
             return
         vc.ensure("data.one_send", len(tr) == 1 and len(sends) == 1)
         if len(sends) == 1:
@@ -1068,7 +1099,7 @@ def upper_b(vc, b):
 
 
 @scenario("http1server.send", functions=[H1S + ".send", "mitmproxy.net.http.http1.assemble:assemble_response_head",
-                                         "mitmproxy.net.http.http1.assemble:_assemble_response_line"])
+                                         "mitmproxy.net.http.http1.assemble:_assemble_response_line"], candidates=SEND_CANDS)
 def s_server_send(vc):
     from props.httpstream import mk_request, mk_response, mk_headers
     from mitmproxy.connection import ConnectionState
@@ -1120,7 +1151,7 @@ def s_server_send(vc):
         vc.ensure("headers.response_recorded", srv.response is resp)
     elif evk == "data":
         if vc.branch(len_(data) == 0):
-            vc.ensure_kf("data.empty_sends_nothing", len(tr) == 0, "KF-C01-7", chunked)
+            vc.ensure("data.empty_sends_nothing", len(tr) == 0)
             return
         if vc.branch(Or(is_head, bodiless_status)):
             # a response that cannot have a body: no body octets may follow the head
